@@ -865,6 +865,10 @@ def widen_ivl(rng, v, dyadic=True):
     lo, hi = v
     pick = (lambda: rng.choice([0, 0, 0.25, 0.5, 1, 3, 10])) if dyadic else (lambda: rng.choice([0.0, rng.uniform(0, 1), rng.uniform(0, 8)]))
     m = rng.random()
+    if hi < 0 and m < 0.2:
+        return [lo - rng.choice([0, 0, 1]), 0.0]
+    if lo > 0 and m < 0.2:
+        return [0.0, hi + rng.choice([0, 0, 1])]
     if m < 0.15:
         return [lo - pick(), hi]
     if m < 0.3:
@@ -921,8 +925,10 @@ def widen_box(rng, l, r, integer=True, keep_sign=False):
     integer = {True: "int", False: "float"}.get(integer, integer)
     inc = {"int": (lambda: rng.choice(INC_I)), "dyadic": (lambda: rng.choice([0, 0, 0.125, 0.5, 1, 2.5])),
            "float": (lambda: rng.choice([0.0, 0.0, rng.uniform(0, 0.5), rng.uniform(0, 4)]))}[integer]
-    mode = rng.choice(["rand", "rand", "shift", "left", "right", "support", "tail", "big", "first"])
+    mode = rng.choice(["rand", "rand", "shift", "left", "right", "support", "tail", "big", "first", "zero", "zero"])
     l2, r2 = list(l), list(r)
+    if mode == "zero" and not (max(r) < 0 or min(l) > 0):
+        mode = "rand"
     if mode == "rand":
         l2 = [a - inc() for a in l]
         r2 = [a + inc() for a in r]
@@ -935,6 +941,18 @@ def widen_box(rng, l, r, integer=True, keep_sign=False):
         r2 = [a + inc() for a in r]
     elif mode == "support":
         l2, r2 = [min(l)] * n, [max(r)] * n
+    elif mode == "zero":
+        # widen up to zero exactly: a negative box gets hi == 0, a positive one lo == 0 (touching, not straddling)
+        k = rng.choice([1, 1, 2, n // 2 + 1, n])
+        k = max(1, min(k, n))
+        if max(r) < 0:
+            r2 = r2[: n - k] + [0] * k
+            if rng.random() < 0.3:
+                l2 = [a - inc() for a in l2]
+        else:
+            l2 = [0] * k + l2[k:]
+            if rng.random() < 0.3:
+                r2 = [a + inc() for a in r2]
     elif mode == "first":
         # the smallest widening: only the first left step and / or the last right step move (possibly across zero)
         c1 = rng.choice([1, 2, 30]) if integer != "float" else rng.uniform(0.1, 30)
@@ -1153,7 +1171,7 @@ def gen_cases(ctx):
         add("itree", {"f": "itree", "tree": t, "depth": tree_depth(t)}, [{"box": b1}, {"box": b2}], exact=(dy and not div),
             nontriv=(b1 != b2 and bool(tree_vars(t))))
     # ---- 4. raw combination rules, small n (index arithmetic exhaustively exercised)
-    signs = ["pos", "neg", "str", None]
+    signs = ["pos", "neg", "str", None, "pos0", "neg0"]
     for _ in range(S(1500, 40000)):
         n = rng.choice([1, 2, 2, 3, 3, 4, 5, 6])
         rule = rng.choice(["frechet", "frechet", "perfect", "opposite", "independent", "naive"])
@@ -1178,7 +1196,7 @@ def gen_cases(ctx):
             dep = rng.choice("fpo")          # the exact model of the n*n rule on 53-bit rationals is slow
         ykind = "interval" if rng.random() < 0.15 else "pbox"
         sx, sy = rng.choice(signs), rng.choice(signs)
-        if op == "div" and sy in ("str", None):
+        if op == "div" and sy not in ("pos", "neg"):
             sy = rng.choice(["pos", "neg"])
         x, x2 = pair_box(rng, base_box(rng, STEPS, sx, general), grid)
         y, y2 = pair_box(rng, base_box(rng, STEPS, sy, general), grid, keep_sign=(op == "div"))
@@ -1191,6 +1209,50 @@ def gen_cases(ctx):
         add("pb-bin-" + grid,
             {"f": "pb-bin", "op": op, "dep": dep, "ykind": ykind, "bare": bare, "widened": which},
             [{"x": x, "y": y}, {"x": x2, "y": y2}], exact=(general is not True and op != "div"), nontriv=(x != x2 or y != y2))
+    # ---- 5b. operands that touch zero exactly (hi == 0 or lo == 0), every operation and dependency, both roles:
+    #          as the contained operand (then widened across zero) and as the containing one (reached from one side)
+    zi = 0
+    for op in OPS4:
+        for dep in "fpoi":
+            for touch in ("neg0", "pos0"):
+                for role in ("narrow", "wide"):
+                    for pos in ("x", "y"):
+                        zi += 1
+                        if op == "div" and pos == "y":
+                            continue                      # a divisor containing zero is outside the property
+                        if dep == "i" and zi % S(4, 1) != 0:
+                            continue
+                        general = "dyadic" if zi % 5 == 0 else False
+                        grid = grid_of(general)
+                        other_sign = rng.choice(["pos", "neg", "str", "pos0", "neg0"]) if not (op == "div" and pos == "x") else rng.choice(["pos", "neg"])
+                        tb = base_box(rng, STEPS, touch, general)
+                        if role == "wide":
+                            # X' touches zero; X strictly inside one side of it
+                            strict = narrow_box(rng, tb[0], tb[1], grid)
+                            c = rng.choice([1, 2])
+                            if touch == "neg0":
+                                hi_ = [min(v, -c) for v in strict[1]]
+                                a1 = ([min(u, w) for u, w in zip(strict[0], hi_)], hi_)
+                            else:
+                                lo_ = [max(v, c) for v in strict[0]]
+                                a1 = (lo_, [max(u, w) for u, w in zip(lo_, strict[1])])
+                            t1, t2 = (sorted(a1[0]), sorted(a1[1])), (list(tb[0]), list(tb[1]))
+                        else:
+                            # X touches zero; X' goes on across it (or stays)
+                            t1 = (list(tb[0]), list(tb[1]))
+                            t2 = widen_box(rng, tb[0], tb[1], grid, keep_sign=(op == "div"))
+                        if not is_sub(t1, t2):
+                            continue
+                        o1, o2 = pair_box(rng, base_box(rng, STEPS, other_sign, general), grid, keep_sign=(op == "div"))
+                        if rng.random() < 0.6:
+                            o2 = o1
+                        if pos == "x":
+                            runs = [{"x": t1, "y": o1}, {"x": t2, "y": o2}]
+                        else:
+                            runs = [{"x": o1, "y": t1}, {"x": o2, "y": t2}]
+                        add("pb-zero", {"f": "pb-bin", "op": op, "dep": dep, "ykind": "pbox", "bare": False, "touch": touch,
+                                        "role": role, "touching": pos},
+                            runs, exact=(general is not True and op != "div"))
     # ---- 6. number operands, negation, reciprocal
     for _ in range(S(120, 3000)):
         general = pick_general(rng, 0.25, 0.15)
@@ -1302,7 +1364,7 @@ def gen_cases(ctx):
             t = rand_itree(rng, rng.choice([1, 2, 3]), d)
             while not tree_vars(t):
                 t = rand_itree(rng, rng.choice([1, 2, 3]), d)
-            sgn = [None] * d
+            sgn = [rng.choice(signs) for _ in range(d)]
         else:
             t = monotone_tree(rng, d)
             sgn = ["pos"] * d
@@ -1404,6 +1466,8 @@ def run(ctx: core.Check):
                 "(integer step boxes exact, library-constructor boxes), number operands, neg, reciprocal, unary maps, env/imp (methods "
                 "and envelope()/imposition() with 2-4 mixed operands), nested p-box expressions depth<=3, stacking (list/vector/objects, "
                 "weights), alpha_cut, slicing (fixed n_slices), b2b (direct/endpoints/subinterval with fixed n_sub). "
+                "Operands touching zero exactly (hi == 0 / lo == 0: sign classes pos0 / neg0, widenings that stop at zero, a grid over every "
+                "operation x dependency x role) are part of every p-box stream. "
                 "Each run is also checked against exactly computed results of point / precise sub-boxes. "
                 "Non-trivial = the two runs differ in at least one operand; distinct on (operation, both operand sets).")
     ctx.assumptions = ["binary64 rounding not modelled: integer / dyadic streams compared exactly, float streams within 4*depth ulp of the largest magnitude",
@@ -1472,6 +1536,8 @@ def tie_phase(ctx, c, impls, models, verbose=False):
         if (not dom or nested_div_t) and im[0] == "err" and mo[0] == "err":
             ctx.tie_ok()            # both reject; kinds may differ through Python's operator fall-back (c / P -> TypeError)
             continue
+        if not dom and im[0] == "err":
+            continue                # outside the domain the real code rejects what the rational model can still evaluate
         if im[0] == "ok" and not finite(im):
             if not dom:
                 continue            # numpy inf/nan from a zero divisor: not representable in the model
